@@ -26,6 +26,7 @@ import OFV.Proofs.C08Maj
 import OFV.Proofs.C08Comp
 import OFV.Proofs.C08ScatterC03
 import OFV.Proofs.C08Dch
+import OFV.Proofs.C08Qh
 import OFV.Proofs.C08Doci
 import OFV.Spec.Expr
 
@@ -353,6 +354,36 @@ example : dchExact Generated.eqTolerance
         [([(1, 1), (0, 1), (1, 0), (0, 0)], 2), ([(0, 1), (1, 0)], 1), ([(1, 1), (0, 0)], 1)] none false with
       | .ok H => H.n
       | .error _ => 0) = 2 := by
+  decide +kernel
+
+/-! ### `get_quadratic_hamiltonian` -/
+
+/-- **`get_quadratic_hamiltonian_sound`**: whenever
+`get_quadratic_hamiltonian(A, chemical_potential, n_qubits, ignore_incompatible_terms=False)` succeeds
+and the exactness flag of the run is `true` (every pairing term `c a†_p a†_q` of `normal_ordered(A)`
+has exactly the partner `-conj(c) a_p a_q` — the source accepts a discrepancy below the tolerance; the
+driver reports the flag for every generated input), the QuadraticHamiltonian — the PolynomialTensor
+`{(): constant, (1,0): M - μ·1, (1,1): Δ/2, (0,0): -Δ*/2}` the constructor builds from the combined
+Hermitian part and the antisymmetric part, or without the last two when the antisymmetric part is
+negligible — has the matrix elements of `A`: for every FermionOperator with actions 0 / 1 in any
+spelling, every chemical potential, at the live tolerance on a coefficient lattice `(1/D)·ℤ[i]` with
+`tol·D ≤ 1`.  Uses the Model and theorems of C03 for `normal_ordered` and the anticommutation of the
+Spec for `a†_q a†_p = -a†_p a†_q`, `a_q a_p = -a_p a_q` (the antisymmetrisation halves). -/
+theorem get_quadratic_hamiltonian_sound (D : Nat) (hD : 0 < D) (tol : Rat) (h0 : 0 ≤ tol) (h1 : tol * D ≤ 1)
+    (A : Model.Op) (mu : GQ) (n? : Option Nat) (P : PT) (hv : ∀ e ∈ A, ∀ f ∈ e.1, f.2 < 2)
+    (la : ∀ e ∈ A, Proofs.C03.Lat D e.2) (h : getQuadraticHamiltonian tol A mu n? false = .ok P)
+    (hex : qhExact tol A = true) (t s : Nat) :
+    melF (denotePT P.d) t s = melF A t s :=
+  getQH_sound D hD tol h0 h1 A mu n? P hv la h hex t s
+
+/-- non-vacuity: `a†_1 a†_0 - a_1 a_0 + a†_0 a_0` with chemical potential 1/2, in the exact regime;
+the antisymmetric part is kept (four tensors) -/
+example : qhExact Generated.eqTolerance
+      [([(1, 1), (0, 1)], 1), ([(1, 0), (0, 0)], -1), ([(0, 1), (0, 0)], 1)] = true ∧
+    (match getQuadraticHamiltonian Generated.eqTolerance
+        [([(1, 1), (0, 1)], 1), ([(1, 0), (0, 0)], -1), ([(0, 1), (0, 0)], 1)] ⟨1/2, 0⟩ none false with
+      | .ok P => P.d.length
+      | .error _ => 0) = 4 := by
   decide +kernel
 
 /-! ### DOCIHamiltonian -/
